@@ -239,6 +239,15 @@ func init() {
 					for _, S := range []int{8, 300, 1100, 4200, 9000} {
 						dir = append(dir, c03Directed(t, C, S))
 					}
+					// power-of-two byte sizes (whole copy chunks): sources of S/2 frames
+					if C <= 2 && (t == dyn.Float64 || (t == dyn.Int8 && !c.Quick())) {
+						for _, S := range []int{65536, 131072, 262144} {
+							if t == dyn.Int8 {
+								S *= 8
+							}
+							dir = append(dir, c03Directed(t, C, S))
+						}
+					}
 				}
 			}
 			c.ParallelFor(len(dir), func(i int) {
